@@ -1,6 +1,9 @@
 /-
-  Base/ParseNumber — model of otto's string→number conversion `parseNumber` (value_number.go:14).
-  Shared with C05 (ToNumber on strings).
+  Base/ParseNumber — model of otto's string→number conversion `parseNumber` (value_number.go:17),
+  as repaired by 8696ffc (grammar check) and 2b35617 (hexadecimal strings beyond int64).
+  Shared with C05, C08, C09, C13, C15 (ToNumber on strings).  The same definitions live in
+  C06/Model.lean, where they are proved against ES5 §9.3.1 (C06.Thm.reDecRest_eq,
+  toNumber_complete_body, toNumber_decimal_sound, …); C06.Thm.pn_parseNumber_eq ties the two copies.
 -/
 import OttoVerif.Base.GoStd
 namespace OttoVerif.PN
@@ -17,15 +20,76 @@ def startsWith0x : List Nat → Bool
   | 48 :: c :: _ => c = 120 ∨ c = 88
   | _ => false
 
-/-- parseNumber (value_number.go:14) -/
-def parseNumber (s : List Nat) : FV :=
-  let v := trim wsRunes s
+/-! the regular expression `stringToNumberValid` (value_number.go:15)
+    `^(?:[\+\-]?(?:Infinity|(?:[0-9]+\.?[0-9]*|\.[0-9]+)(?:[eE][\+\-]?[0-9]+)?)|0[xX][0-9a-fA-F]+)$`
+    as a deterministic scanner (every repetition is greedy and followed by something that cannot start
+    with what it repeats, so leftmost-first = longest). -/
+
+def reIsDigit (c : Nat) : Bool := 48 ≤ c ∧ c ≤ 57
+
+/-- `\.?[0-9]*` after a non-empty integer part, or `\.[0-9]+` after an empty one: (fraction digits, rest) -/
+def reFrac (ipEmpty : Bool) (r1 : List Nat) : List Nat × List Nat :=
+  match r1 with
+  | c :: t =>
+    if c = 46 then
+      let fp := t.takeWhile reIsDigit
+      if ipEmpty ∧ fp.isEmpty then ([], r1) else (fp, t.dropWhile reIsDigit)
+    else ([], r1)
+  | [] => ([], r1)
+
+/-- `[\+\-]?` -/
+def reSign (t : List Nat) : List Nat :=
+  match t with
+  | c :: u => if c = 43 ∨ c = 45 then u else t
+  | [] => t
+
+/-- `(?:[eE][\+\-]?[0-9]+)?`: the rest after the optional exponent (taken only when complete) -/
+def reExpRest (r2 : List Nat) : List Nat :=
+  match r2 with
+  | c :: t =>
+    if c = 101 ∨ c = 69 then
+      let ed := (reSign t).takeWhile reIsDigit
+      if ed.isEmpty then r2 else (reSign t).dropWhile reIsDigit
+    else r2
+  | [] => r2
+
+/-- the text left after the match of the signed decimal alternative at the start of `s`; `none` = no match -/
+def reDecRest (s : List Nat) : Option (List Nat) :=
+  let body := reSign s
+  if [73, 110, 102, 105, 110, 105, 116, 121].isPrefixOf body then some (body.drop 8) else     -- "Infinity"
+  let ip := body.takeWhile reIsDigit
+  let r1 := body.dropWhile reIsDigit
+  let fp := (reFrac ip.isEmpty r1).1
+  let r2 := (reFrac ip.isEmpty r1).2
+  if ip.isEmpty ∧ fp.isEmpty then none else some (reExpRest r2)
+
+def reIsHexDigit (c : Nat) : Bool := (48 ≤ c ∧ c ≤ 57) ∨ (97 ≤ c ∧ c ≤ 102) ∨ (65 ≤ c ∧ c ≤ 70)
+def hexDigitVal (c : Nat) : Nat := if c ≤ 57 then c - 48 else if c ≥ 97 then c - 87 else c - 55
+
+/-- `0[xX][0-9a-fA-F]+` matching the whole string -/
+def isHexLit (v : List Nat) : Bool :=
+  match v with
+  | 48 :: x :: hs => (x = 120 ∨ x = 88) && !hs.isEmpty && hs.all reIsHexDigit
+  | _ => false
+
+def stringToNumberValid (v : List Nat) : Bool := reDecRest v == some [] || isHexLit v
+
+/-- `new(big.Float).SetInt(n).Float64()`: the integer n rounded once to nearest-even -/
+def bigToFloat (n : Nat) : FV := ofRatParts false n 1
+
+/-- parseNumber (value_number.go:17) after the Trim -/
+def parseNumberBody (v : List Nat) : FV :=
   if v.isEmpty then zero
-  else if v.contains 46 then pfOrNaN v            -- strings.ContainsRune(value, '.')
+  else if !stringToNumberValid v then .nan          -- strconv accepts more: 1_000, 0x1.8p1, inf, …
+  else if v.contains 46 then pfOrNaN v              -- strings.ContainsRune(value, '.')
   else if startsWith0x v then
     match parseInt v 0 with
     | .ok i => ofInt i
-    | _ => .nan
+    | .range => bigToFloat ((v.drop 2).foldl (fun n c => n * 16 + hexDigitVal c) 0)   -- big.Int.SetString(value, 0)
+    | .syntax => .nan
   else pfOrNaN v
+
+/-- parseNumber (value_number.go:17) -/
+def parseNumber (s : List Nat) : FV := parseNumberBody (trim wsRunes s)
 
 end OttoVerif.PN
